@@ -915,15 +915,21 @@ func rangeLen(start, stop, step int) int {
 }
 
 func (r rangeValue) Slice(start, end, step int) Value {
-	newStart := r.start + r.step*start
-	newStop := r.start + r.step*end
-	newStep := r.step * step
-	return rangeValue{
-		start: newStart,
-		stop:  newStop,
-		step:  newStep,
-		len:   rangeLen(newStart, newStop, newStep),
+	n := rangeLen(start, end, step) // number of selected indices; start, end are in [-1, r.len]
+	if n == 0 {
+		return rangeValue{start: 0, stop: 0, step: 1, len: 0}
 	}
+	first := r.start + r.step*start // an element of r: cannot overflow
+	one := 1
+	if (r.step < 0) != (step < 0) {
+		one = -1
+	}
+	if n == 1 {
+		return rangeValue{start: first, stop: first + one, step: one, len: 1}
+	}
+	newStep := r.step * step      // |newStep| <= |last-first| <= extent of r: cannot overflow
+	last := first + (n-1)*newStep // an element of r
+	return rangeValue{start: first, stop: last + one, step: newStep, len: n}
 }
 
 func (r rangeValue) Freeze() {} // immutable
